@@ -5,7 +5,7 @@ from props import loaderlib as L
 ID = 'C04'
 PROFILES = ['debug', 'release']
 THEOREMS = ['C04_merge_newest_first', 'C04_merge_lookup', 'C04_except_known', 'C04_except_known_nonvacuous',
-            'C04_resolve_refuted_stale_member', 'C04_resolve_refuted_xref_stream_id', 'C04_prev_cycle', 'C04_prev_oob',
+            'C04_resolve_refuted_stale_member', 'C04_xref_stream_id_fixed', 'C04_prev_cycle', 'C04_prev_oob',
             'C04_chain_terminates', 'C04_chain_fuel_independent']
 RULE = ('histories of 1..5 revisions over <= 12 object numbers, every revision adding / redefining / freeing arbitrary numbers '
         '(free entries written with the unchanged and with the incremented generation), xref tables / xref streams / hybrid '
@@ -22,11 +22,11 @@ TRUSTED = ['model of the loader logic of pdf_traverse_xref.rs in coq/Model/Loade
 ASSUMPTIONS = ['a stream read with a /Length different from its payload length does not parse',
                'only xref-stream items carry /Type /XRef, only object-stream items /Type /ObjStm; no /Encrypt in trailers',
                'header offset + any offset written in the file < 2^64; object values nest less than 50 deep']
-CASE_TIMEOUT = 120
+CASE_TIMEOUT = 60
 
 
 def cases(tier, rng):
-    out = []
+    out = L.tiny_cases()
     n = 1500 if tier == 'quick' else 40000
     for i in range(n):
         r = rng.random()
@@ -55,7 +55,7 @@ def nontrivial(case, obs):
     S = L.parse_spec(case)
     if S['kind'] in ('cycle', 'oob'):
         return obs == 'rejected'
-    return S['kind'] == 'wf' and obs.startswith('loaded') and case.count(' X;') + case.count(' T;') >= 2
+    return S['kind'] == 'wf' and obs.startswith('loaded') and case.count(' G;') >= 2      # >= 2 revisions
 
 
 def classify(case, obs):
@@ -63,7 +63,7 @@ def classify(case, obs):
     return '%s/%s:%s' % (S['kind'], S['flags'] or '-', obs.split(' ')[0])
 
 
-KNOWN_FLAG = {'C04-stale-objstm-member': 'b', 'C04-xref-stream-id-reuse': 'c'}
+KNOWN_FLAG = {'C04-stale-objstm-member': 'b'}
 
 
 def known_class(kid, case, obs, prof):
@@ -75,14 +75,14 @@ LEVEL_TEXT = ('Coq theorems over the abstract loader model, universally quantifi
               'newest entry per object number (C04_merge_newest_first / _lookup); for every chain of sections (tables, xref '
               'streams, hybrids in any mix; objects in the file or in object streams; direct or referenced /Length) load binds '
               'every identifier to resolve = the entry of the most recent revision that mentions the number, free => undefined, '
-              'root of the newest section (C04_except_known, hypotheses = complements of the two open finding classes, '
+              'root of the newest section (C04_except_known, hypotheses = complements of the open finding classes, '
               'satisfiability shown); a /Prev chain that revisits an offset or leaves the file is Rejected (C04_prev_cycle, '
               'C04_prev_oob); the walk terminates within #offsets+2 iterations (C04_chain_terminates, _fuel_independent); '
               'refutation witnesses of the unrestricted statement (C04_resolve_refuted_*).  The model is tied to '
               'pdf_traverse_xref.rs by a differential run on rendered PDF files (debug and release)')
 LEVEL_NOTE = ('trusted: Coq kernel; hand transcription coq/Model/Loader.v at the level of already-parsed pieces (the byte-level '
               'parsers are C02/C05/C13/C14/C06/C07); the python renderer + abstract description props/loaderlib.py; extraction + '
-              'ocaml/drv.ml; harness/src/loader_common.rs.  Fixed: merge key = object number (commit f2e753d).  Open known '
-              'findings: stale object-stream member, xref-stream id reuse')
+              'ocaml/drv.ml; harness/src/loader_common.rs.  Fixed: merge key = object number (f2e753d), xref-stream objects parsed in a '
+              'context of their own (4807949).  Open known finding: stale object-stream member')
 TECHNIQUE = ('Coq: invariants over the three passes of parse_objects, induction over the /Prev chain, counting argument for '
              'termination; differential correspondence model vs implementation on rendered files; independent python oracle (resolve)')
